@@ -1,17 +1,51 @@
-(* C01 — chips are conserved at every point of a hand. *)
-From PF Require Import Base ModelGame ProofsChips.
+(* C01 — chips are conserved at every point of a hand (running clauses).
+   seat_ok p : bankroll = stack + wager + pot, initial stack = stack + wager, none of the three negative
+   Cinv0 g   : every seat is seat_ok, the round pot equals the sum of the wagers, wager to match >= 0,
+               minimum raise >= 0
+   run g ops : the state after any list of operations (table operations and actions by any seat,
+               with any integer amount), refused ones leaving the state as it is *)
+From Coq Require Import Lia.
+From PF Require Import Base ModelGame ProofsChips ProofsInv.
 
-(* paying any non-negative amount (ante, blind, call, bet, raise, all-in) keeps the seat's
-   identity bankroll = stack + wager + pot, initial = stack + wager, none negative *)
+(* in every state reachable from a created hand, by every sequence of operations with every amount
+   argument: each seat's bankroll identity holds, nothing is negative, the round pot is the sum of
+   the wagers *)
+Theorem C01_running :
+  forall c deck g ops,
+    cfg_ok c -> create c deck = (g, Ok) ->
+    let s := run g ops in
+    (forall i, (i < nplayers s)%nat -> seat_ok (get_p s i)) /\
+    st_rpot (g_st s) = wagers_of (g_players s).
+Proof.
+  intros c deck g ops Hc Hcr s.
+  destruct (inv_chips s (Inv_reachable c deck g ops Hc Hcr)) as [_ A B _ _]. split; assumption.
+Qed.
+Print Assumptions C01_running.
+
+(* one step, from any state satisfying the invariant *)
+Theorem C01_step_preserves : forall g o, Inv g -> Inv (fst (step g o)).
+Proof. exact Inv_step. Qed.
+Print Assumptions C01_step_preserves.
+
+(* paying any non-negative amount keeps the seat's identity and moves nobody else's chips *)
 Theorem C01_pay_keeps_seat_identity :
   forall g i chips is_wager,
     (i < nplayers g)%nat -> 0 <= chips -> seat_ok (get_p g i) -> seat_ok (get_p (pay g i chips is_wager) i).
 Proof. exact pay_self. Qed.
 Print Assumptions C01_pay_keeps_seat_identity.
 
-(* ... and moves nobody else's chips *)
 Theorem C01_pay_moves_no_other_chips :
   forall g i j chips is_wager,
     (j < nplayers g)%nat -> i <> j -> chips_of (get_p (pay g i chips is_wager) j) = chips_of (get_p g j).
 Proof. exact pay_other. Qed.
 Print Assumptions C01_pay_moves_no_other_chips.
+
+(* non-vacuity: a three-handed hand with an ante, a short stack and an all-in satisfies the premises *)
+Example C01_reachable_example :
+  let c := mkCfg 1 0 1 2 false 2 0 [] (seqZ_from 0 30) 1
+                 [(40, (true, false, false)); (3, (false, true, false)); (25, (false, false, true))] in
+  cfg_ok c /\ exists g, create c (seqZ_from 0 30) = (g, Ok) /\
+  st_event (g_st (run g [OReady; OPayAnte; OReady; OPayBlinds; OReady; OAct None AAllin 0])) = EvRoundStarted.
+Proof.
+  cbv zeta. split; [unfold cfg_ok; simpl; lia|]. eexists. split; [vm_compute; reflexivity|vm_compute; reflexivity].
+Qed.
